@@ -7,12 +7,12 @@ import time
 
 import sctrace as sc
 
-MUT_C08 = ['init-scrypt', 'init-argon', 'add-user-scrypt', 'add-user-argon', 'add-admin', 'add-user-notmp',
+MUT_C08 = ['update-tmp-otherfs', 'add-user-tmp-otherfs', 'init-scrypt', 'init-argon', 'add-user-scrypt', 'add-user-argon', 'add-admin', 'add-user-notmp',
            'update-noaux-scrypt', 'update-noaux-argon', 'update-aux100', 'update-aux5k', 'update-aux70k-oneline',
            'update-aux1m', 'update-aux-crlf-nonl', 'update-admin', 'update-notmp', 'add-user-tmp-is-file', 'update-tmp-is-file']
-QUICK_C08 = ['init-argon', 'add-user-scrypt', 'add-user-notmp', 'add-user-tmp-is-file', 'update-tmp-is-file', 'update-noaux-argon', 'update-aux5k', 'update-aux70k-oneline', 'update-aux-crlf-nonl', 'update-admin']
+QUICK_C08 = ['update-tmp-otherfs', 'init-argon', 'add-user-scrypt', 'add-user-notmp', 'add-user-tmp-is-file', 'update-tmp-is-file', 'update-noaux-argon', 'update-aux5k', 'update-aux70k-oneline', 'update-aux-crlf-nonl', 'update-admin']
 MUT_C09 = [x for x in MUT_C08 if 'tmp-is-file' not in x and 'dangling' not in x] + ['setadmin-up', 'setadmin-down', 'setadmin-same', 'remove-user', 'remove-admin', 'remove-nonexistent']
-QUICK_C09 = ['init-scrypt', 'add-user-argon', 'add-admin', 'update-aux100', 'update-aux5k', 'update-aux-crlf-nonl', 'setadmin-up', 'setadmin-down', 'remove-user', 'remove-admin', 'remove-nonexistent']
+QUICK_C09 = ['update-tmp-otherfs', 'init-scrypt', 'add-user-argon', 'add-admin', 'update-aux100', 'update-aux5k', 'update-aux-crlf-nonl', 'setadmin-up', 'setadmin-down', 'remove-user', 'remove-admin', 'remove-nonexistent']
 FAIL_SEM = ['add-existing', 'update-nonexistent', 'setadmin-nonexistent', 'init-nonempty', 'add-user-tmp-is-file', 'update-tmp-is-file', 'update-tmp-dangling-symlink']
 RO = ['ro-auth-ok', 'ro-auth-wrong', 'ro-auth-upgradeable', 'ro-auth-nonexistent', 'ro-exists', 'ro-list', 'ro-listfull', 'ro-check']
 
@@ -32,6 +32,7 @@ class Stage:
         os.makedirs(self.work)
         self.hx = ctx.build_hx()
         self.nvio = {}
+        ctx.env.setdefault('VERIF_SHM_TAG', os.path.basename(ctx.work))
 
     def case(self, key, nontrivial=True):
         self.r['evaluations'] += 1
@@ -59,6 +60,9 @@ class Stage:
 
     def done(self):
         self.r['_wall'] = time.time() - self.t0
+        import glob
+        for d in glob.glob('/dev/shm/verif-tmp-%s-*' % self.ctx.env.get('VERIF_SHM_TAG', 'none')):
+            shutil.rmtree(d, ignore_errors=True)
         return self.r
 
     # -- helpers
@@ -243,7 +247,7 @@ def crash_scenario(st, scen, mode):
                 tree = sc.read_tree(os.path.join(kd, 'base'))
                 st.cleanup_traces(kd)
                 v = st.oracle(scen, tdir, kd, 'crash')
-                if not v.get('problems') and scen.startswith('update') and 'tmp-is-file' not in scen:
+                if not v.get('problems') and scen.startswith('update') and 'tmp-is-file' not in scen and 'otherfs' not in scen:
                     v['followup'] = followup_after_crash(st, scen, kd)
                 shutil.rmtree(kd, ignore_errors=True)
                 return i, s, True, tree, v
@@ -314,7 +318,8 @@ def followup_after_crash(st, scen, kd):
     v = st.oracle(scen, tmpl, kd, mode)
     v['result'] = res
     if mode == 'failed':
-        v.setdefault('problems', []).append('the follow-up operation failed: %s' % res.get('error'))
+        v['problems'] = v.get('problems') or []
+        v['problems'].append('the follow-up operation failed: %s' % res.get('error'))
     shutil.rmtree(tmpl, ignore_errors=True)
     return v
 
@@ -474,6 +479,10 @@ def durability_scenario(st, scen, inject=None, tag=''):
             shutil.rmtree(rdir, ignore_errors=True)
             return   # a reported failure is C15's business
     elif t['status'] != 'ok':
+        if 'otherfs' in scen:
+            # a work area on another file system: the operation may refuse (nothing acknowledged, nothing to check here)
+            st.count('scenarios_refused_without_acknowledgement')
+            return
         raise RuntimeError('reference operation of %s failed: %s' % (scen, t['result']))
     win = window(t)
     if inject is None and not scen.startswith('remove'):
